@@ -448,6 +448,16 @@ impl Recv {
             self.in_flight_data,
         );
 
+        #[cfg(feature = "verif-hooks")]
+        let _verif = crate::verif::enter("recv.release_connection_capacity", || {
+            vec![
+                isize::from(self.flow.window_size_raw()) as i64,
+                isize::from(self.flow.available()) as i64,
+                self.in_flight_data as i64,
+                self.init_window_sz as i64,
+                capacity as i64,
+            ]
+        });
         // Decrement in-flight data
         self.in_flight_data -= capacity;
 
@@ -470,6 +480,25 @@ impl Recv {
         stream: &mut store::Ptr,
         task: &mut Option<Waker>,
     ) -> Result<(), UserError> {
+        #[cfg(feature = "verif-hooks")]
+        let _verif = crate::verif::enter("recv.release_capacity", || {
+            vec![
+                stream.verif_serial,
+                u32::from(stream.id) as i64,
+                stream.is_recv as i64,
+                isize::from(stream.recv_flow.window_size_raw()) as i64,
+                isize::from(stream.recv_flow.available()) as i64,
+                stream.in_flight_recv_data as i64,
+                stream.is_pending_window_update as i64,
+                stream.state.is_recv_streaming() as i64,
+                stream.state.is_local_error() as i64,
+                isize::from(self.flow.window_size_raw()) as i64,
+                isize::from(self.flow.available()) as i64,
+                self.in_flight_data as i64,
+                self.init_window_sz as i64,
+                capacity as i64,
+            ]
+        });
         tracing::trace!("release_capacity; size={}", capacity);
 
         if capacity > stream.in_flight_recv_data {
@@ -505,6 +534,24 @@ impl Recv {
         task: &mut Option<Waker>,
         counts: &mut Counts,
     ) {
+        #[cfg(feature = "verif-hooks")]
+        let _verif = crate::verif::enter("recv.release_closed_capacity", || {
+            vec![
+                stream.verif_serial,
+                u32::from(stream.id) as i64,
+                stream.is_recv as i64,
+                isize::from(stream.recv_flow.window_size_raw()) as i64,
+                isize::from(stream.recv_flow.available()) as i64,
+                stream.in_flight_recv_data as i64,
+                stream.is_pending_window_update as i64,
+                stream.state.is_recv_streaming() as i64,
+                stream.state.is_local_error() as i64,
+                isize::from(self.flow.window_size_raw()) as i64,
+                isize::from(self.flow.available()) as i64,
+                self.in_flight_data as i64,
+                self.init_window_sz as i64,
+            ]
+        });
         debug_assert_eq!(stream.ref_count, 0);
 
         if stream.in_flight_recv_data != 0 {
@@ -538,6 +585,16 @@ impl Recv {
         target: WindowSize,
         task: &mut Option<Waker>,
     ) -> Result<(), Reason> {
+        #[cfg(feature = "verif-hooks")]
+        let _verif = crate::verif::enter("recv.set_target_connection_window", || {
+            vec![
+                isize::from(self.flow.window_size_raw()) as i64,
+                isize::from(self.flow.available()) as i64,
+                self.in_flight_data as i64,
+                self.init_window_sz as i64,
+                target as i64,
+            ]
+        });
         tracing::trace!(
             "set_target_connection_window; target={}; available={}, reserved={}",
             target,
@@ -577,6 +634,19 @@ impl Recv {
         settings: &frame::Settings,
         store: &mut Store,
     ) -> Result<(), proto::Error> {
+        #[cfg(feature = "verif-hooks")]
+        let _verif = crate::verif::enter("recv.apply_local_settings", || {
+            vec![
+                isize::from(self.flow.window_size_raw()) as i64,
+                isize::from(self.flow.available()) as i64,
+                self.in_flight_data as i64,
+                self.init_window_sz as i64,
+                settings
+                    .initial_window_size()
+                    .map(|v| v as i64)
+                    .unwrap_or(-1),
+            ]
+        });
         if let Some(val) = settings.is_extended_connect_protocol_enabled() {
             self.is_extended_connect_protocol_enabled = val;
         }
@@ -610,6 +680,20 @@ impl Recv {
                     tracing::trace!("decrementing all windows; dec={}", dec);
 
                     store.try_for_each(|mut stream| {
+                        #[cfg(feature = "verif-hooks")]
+                        crate::verif::ev("recv.settings_stream", || {
+                            vec![
+                                stream.verif_serial,
+                                u32::from(stream.id) as i64,
+                                stream.is_recv as i64,
+                                isize::from(stream.recv_flow.window_size_raw()) as i64,
+                                isize::from(stream.recv_flow.available()) as i64,
+                                stream.in_flight_recv_data as i64,
+                                stream.is_pending_window_update as i64,
+                                stream.state.is_recv_streaming() as i64,
+                                stream.state.is_local_error() as i64,
+                            ]
+                        });
                         stream
                             .recv_flow
                             .dec_recv_window(dec)
@@ -632,6 +716,20 @@ impl Recv {
                     store.try_for_each(|mut stream| {
                         // XXX: Shouldn't the peer have already noticed our
                         // overflow and sent us a GOAWAY?
+                        #[cfg(feature = "verif-hooks")]
+                        crate::verif::ev("recv.settings_stream", || {
+                            vec![
+                                stream.verif_serial,
+                                u32::from(stream.id) as i64,
+                                stream.is_recv as i64,
+                                isize::from(stream.recv_flow.window_size_raw()) as i64,
+                                isize::from(stream.recv_flow.available()) as i64,
+                                stream.in_flight_recv_data as i64,
+                                stream.is_pending_window_update as i64,
+                                stream.state.is_recv_streaming() as i64,
+                                stream.state.is_local_error() as i64,
+                            ]
+                        });
                         stream
                             .recv_flow
                             .inc_window(inc)
@@ -660,6 +758,27 @@ impl Recv {
 
     pub fn recv_data(&mut self, frame: frame::Data, stream: &mut store::Ptr) -> Result<(), Error> {
         // could include padding
+        #[cfg(feature = "verif-hooks")]
+        let _verif = crate::verif::enter("recv.recv_data", || {
+            vec![
+                stream.verif_serial,
+                u32::from(stream.id) as i64,
+                stream.is_recv as i64,
+                isize::from(stream.recv_flow.window_size_raw()) as i64,
+                isize::from(stream.recv_flow.available()) as i64,
+                stream.in_flight_recv_data as i64,
+                stream.is_pending_window_update as i64,
+                stream.state.is_recv_streaming() as i64,
+                stream.state.is_local_error() as i64,
+                isize::from(self.flow.window_size_raw()) as i64,
+                isize::from(self.flow.available()) as i64,
+                self.in_flight_data as i64,
+                self.init_window_sz as i64,
+                frame.flow_controlled_len() as i64,
+                frame.payload().len() as i64,
+                frame.is_end_stream() as i64,
+            ]
+        });
         let sz = frame.flow_controlled_len();
 
         // This should have been enforced at the codec::FramedRead layer, so
@@ -747,6 +866,21 @@ impl Recv {
             return Ok(());
         }
 
+        #[cfg(feature = "verif-hooks")]
+        crate::verif::ev("recv.charge_stream", || {
+            vec![
+                stream.verif_serial,
+                u32::from(stream.id) as i64,
+                stream.is_recv as i64,
+                isize::from(stream.recv_flow.window_size_raw()) as i64,
+                isize::from(stream.recv_flow.available()) as i64,
+                stream.in_flight_recv_data as i64,
+                stream.is_pending_window_update as i64,
+                stream.state.is_recv_streaming() as i64,
+                stream.state.is_local_error() as i64,
+                sz as i64,
+            ]
+        });
         // Update stream level flow control
         stream
             .recv_flow
@@ -791,6 +925,16 @@ impl Recv {
     }
 
     pub fn ignore_data(&mut self, sz: WindowSize) -> Result<(), Error> {
+        #[cfg(feature = "verif-hooks")]
+        let _verif = crate::verif::enter("recv.ignore_data", || {
+            vec![
+                isize::from(self.flow.window_size_raw()) as i64,
+                isize::from(self.flow.available()) as i64,
+                self.in_flight_data as i64,
+                self.init_window_sz as i64,
+                sz as i64,
+            ]
+        });
         // Ensure that there is enough capacity on the connection...
         self.consume_connection_window(sz)?;
 
@@ -807,6 +951,16 @@ impl Recv {
     }
 
     pub fn consume_connection_window(&mut self, sz: WindowSize) -> Result<(), Error> {
+        #[cfg(feature = "verif-hooks")]
+        let _verif = crate::verif::enter("recv.consume_connection_window", || {
+            vec![
+                isize::from(self.flow.window_size_raw()) as i64,
+                isize::from(self.flow.available()) as i64,
+                self.in_flight_data as i64,
+                self.init_window_sz as i64,
+                sz as i64,
+            ]
+        });
         if self.flow.window_size() < sz {
             tracing::debug!(
                 "connection error FLOW_CONTROL_ERROR -- window_size ({:?}) < sz ({:?});",
@@ -970,6 +1124,24 @@ impl Recv {
         task: &mut Option<Waker>,
         counts: &mut Counts,
     ) {
+        #[cfg(feature = "verif-hooks")]
+        let _verif = crate::verif::enter("recv.clear_recv_buffer", || {
+            vec![
+                stream.verif_serial,
+                u32::from(stream.id) as i64,
+                stream.is_recv as i64,
+                isize::from(stream.recv_flow.window_size_raw()) as i64,
+                isize::from(stream.recv_flow.available()) as i64,
+                stream.in_flight_recv_data as i64,
+                stream.is_pending_window_update as i64,
+                stream.state.is_recv_streaming() as i64,
+                stream.state.is_local_error() as i64,
+                isize::from(self.flow.window_size_raw()) as i64,
+                isize::from(self.flow.available()) as i64,
+                self.in_flight_data as i64,
+                self.init_window_sz as i64,
+            ]
+        });
         let mut to_release: WindowSize = 0;
         while let Some(event) = stream.pending_recv.pop_front(&mut self.buffer) {
             if let Event::Data(data) = &event {
@@ -985,6 +1157,21 @@ impl Recv {
         // * User read data but hasn't released: buf=0, in_flight>0 -> release 0
         // * User released without reading: buf>0, in_flight=0 -> release 0
         // * Normal drop without reading: buf=in_flight -> full release
+        #[cfg(feature = "verif-hooks")]
+        crate::verif::ev("recv.clear_release", || {
+            vec![
+                stream.verif_serial,
+                u32::from(stream.id) as i64,
+                stream.is_recv as i64,
+                isize::from(stream.recv_flow.window_size_raw()) as i64,
+                isize::from(stream.recv_flow.available()) as i64,
+                stream.in_flight_recv_data as i64,
+                stream.is_pending_window_update as i64,
+                stream.state.is_recv_streaming() as i64,
+                stream.state.is_local_error() as i64,
+                to_release as i64,
+            ]
+        });
         if to_release > 0 {
             stream.in_flight_recv_data -= to_release;
             self.release_connection_capacity(to_release, task);
@@ -1172,6 +1359,16 @@ impl Recv {
             }
 
             // Buffer the WINDOW_UPDATE frame
+            #[cfg(feature = "verif-hooks")]
+            crate::verif::ev("recv.conn_window_update", || {
+                vec![
+                    isize::from(self.flow.window_size_raw()) as i64,
+                    isize::from(self.flow.available()) as i64,
+                    self.in_flight_data as i64,
+                    self.init_window_sz as i64,
+                    incr as i64,
+                ]
+            });
             dst.buffer(frame.into())
                 .expect("invalid WINDOW_UPDATE frame");
 
@@ -1210,6 +1407,20 @@ impl Recv {
             counts.transition(stream, |_, stream| {
                 tracing::trace!("pending_window_updates -- pop; stream={:?}", stream.id);
                 debug_assert!(!stream.is_pending_window_update);
+                #[cfg(feature = "verif-hooks")]
+                crate::verif::ev("recv.stream_wu_pop", || {
+                    vec![
+                        stream.verif_serial,
+                        u32::from(stream.id) as i64,
+                        stream.is_recv as i64,
+                        isize::from(stream.recv_flow.window_size_raw()) as i64,
+                        isize::from(stream.recv_flow.available()) as i64,
+                        stream.in_flight_recv_data as i64,
+                        stream.is_pending_window_update as i64,
+                        stream.state.is_recv_streaming() as i64,
+                        stream.state.is_local_error() as i64,
+                    ]
+                });
 
                 if !stream.state.is_recv_streaming() {
                     // No need to send window updates on the stream if the stream is
@@ -1224,6 +1435,21 @@ impl Recv {
                 // TODO: de-dup
                 if let Some(incr) = stream.recv_flow.unclaimed_capacity() {
                     // Create the WINDOW_UPDATE frame
+                    #[cfg(feature = "verif-hooks")]
+                    crate::verif::ev("recv.stream_window_update", || {
+                        vec![
+                            stream.verif_serial,
+                            u32::from(stream.id) as i64,
+                            stream.is_recv as i64,
+                            isize::from(stream.recv_flow.window_size_raw()) as i64,
+                            isize::from(stream.recv_flow.available()) as i64,
+                            stream.in_flight_recv_data as i64,
+                            stream.is_pending_window_update as i64,
+                            stream.state.is_recv_streaming() as i64,
+                            stream.state.is_local_error() as i64,
+                            incr as i64,
+                        ]
+                    });
                     let frame = frame::WindowUpdate::new(stream.id, incr);
 
                     // Buffer it
